@@ -179,5 +179,7 @@ Proof.
     do 2 eexists. split; vm_compute; reflexivity. }
   exists (match Cb.combine 20 30 [(1, ex_up)] [] [(2, ex_down)] true with Cb.Done ps => ps | _ => [] end).
   split; [vm_compute; reflexivity|]. split; [vm_compute; reflexivity|].
-  vm_compute. repeat constructor.
+  match goal with |- Forall _ ?l => set (ps := l) end. vm_compute in ps. subst ps.
+  repeat (constructor; [split; [cbn; lia|unfold path_unexpired; cbn [Cb.p_slices]; repeat constructor]|]).
+  constructor.
 Qed.
